@@ -38,7 +38,7 @@ def main(argv=None):
     warnings.simplefilter("ignore")
     seed = int(os.environ.get("VERIF_SEED", "0") or 0)
     from . import guard
-    guard.install([os.path.join(core.VERIF, "evidence"), os.path.join(core.VERIF, "replays"), os.environ.get("MC_DUMP")])
+    guard.install([os.path.join(core.OUT, "evidence"), os.path.join(core.OUT, "replays"), os.environ.get("MC_DUMP")])
     if a.replay:
         a.replay = os.path.abspath(a.replay)
     # relative paths produced by the code under test must never resolve into /verif or /repo
